@@ -31,7 +31,7 @@ ClashPairs == << << <<"proper", "Tom", "Sawyer">>, <<"proper", "Toms", "Awyer">>
                  << <<"proper", "Johnny", "B", "Goode">>, <<"proper", "Johnny", "Bgoode">> >> >>
 ClashKeysDiffer == \A i \in 1..Len(ClashPairs) : Key(ClashPairs[i][1]) # Key(ClashPairs[i][2])
 
-SimpleWords == <<"foo", "bar", "baz", "qux", "~clair", "zed", "quux", "corge", "grault", "garply", "waldo", "fred">>
+SimpleWords == <<"foo", "bar", "baz", "qux", "~clair", "zed", "quux", "corge", "grault", "garply", "waldo", "y'all">>
 Articles    == <<"the", "my", "your", "a", "an", "our">>
 CommonWords == <<"heart", "world", "night", "fire", "~t~", "dream">>
 ProperNames == << <<"Doctor", "Feelgood">>, <<"Tom", "Sawyer", "Jr">>, <<"^mile", "Zola">>, <<"Johnny", "B", "Goode">>,
